@@ -15,8 +15,9 @@ func main() {
 	w := lib.NewWriter(args, "C01", "c01", "From KB Require Import Model.C01Cases.", "c01_case", "c01_check", "c01_oracle", 150)
 	lib.KBCompactRaces(w, args, []string{lib.EngMem, lib.EngBadger, lib.EngTiKV})
 	lib.KBDoubleSuccessStress(w, args, []string{lib.EngBadger, lib.EngTiKV})
+	lib.KBProxyCases(w, args)
 	lib.KBDrive(w, args, lib.KBProfile{Prop: "C01", Malformed: 8, ErrPct: 4, AbortPct: 3,
-		Quick: 300, QuickOther: 40, Thorough: 5000, Search: 1500, Exhaustive: true,
+		Quick: 300, QuickOther: 40, Thorough: 5000, Search: 1500, Exhaustive: true, Fronts: true,
 		WrapCoq: func(coq string) string { return "(C1Sched " + coq + ")" }})
 	if err := w.Finish("non-trivial = a step of one client thread happened between two steps of another"); err != nil {
 		fmt.Fprintln(os.Stderr, err)
